@@ -182,6 +182,9 @@ def run(ctx):
     for i in range(ctx.scale(25, 300)):
         tame = rng.random() < 0.75 and i != 0
         pws = gen_passwords.gen_list(rng, n=rng.randint(8, 30), tame=tame)
+        if i == 1:
+            # a fixed corpus of boundary shapes, whatever the seed: every keyboard run of the pool alone and embedded
+            pws += gen_passwords.WALKS + ['monkey' + w for w in gen_passwords.WALKS] + [w + 'Summer1' for w in gen_passwords.WALKS]
         if not tame:
             # put the length-changing / title-case letters around trigger patterns
             for base in ['www.a.com', 'bob@x.com', 'pass1']:
